@@ -18,7 +18,7 @@ PROPERTY = {
     ],
     "timeout": 900,
     "kani": [
-        Harness("c17_twin_add_value", "C17.twin.add_value", "BOUNDED", "rollback + count == cells with a carrier that writes <= 3 bytes (+ a nested cell) through the CellWriter API and fails nondeterministically, after 0..2 earlier values", bound="<= 2 earlier values, <= 3 garbage bytes", crate="scylla-cql-core", twin=True, functions=["scylla-cql-core/src/serialize/row.rs:SerializedValues::add_value"]),
+        Harness("c17_twin_add_value", "C17.twin.add_value", "BOUNDED", "rollback + count == cells with a carrier that writes <= 3 bytes (+ a nested cell) through the CellWriter API and fails nondeterministically, after 0..2 earlier values", bound="5 concrete shapes (0..2 earlier values, 0..3 bytes written before failing, custom / type-check failure), bytes symbolic", crate="scylla-cql-core", twin=True, functions=["scylla-cql-core/src/serialize/row.rs:SerializedValues::add_value"]),
     ],
     "trusted_base": ["Verus/Z3 soundness", "SerializeValue::serialize trait contract (assumed for impls)", "Vec::resize truncation", "i32::to_be_bytes"],
     "assumptions": [],
